@@ -369,6 +369,34 @@ impl<F: Future + Unpin> Future for Once<F> {
 }
 
 fn migrate_u8() -> Vec<TaskDef> {
+    migrate(TaskKind::Export, TaskKind::Export)
+}
+fn migrate_v2_v1() -> Vec<TaskDef> {
+    migrate(TaskKind::Export, TaskKind::V1Export)
+}
+fn migrate_v1_v2() -> Vec<TaskDef> {
+    migrate(TaskKind::V1Export, TaskKind::Export)
+}
+fn migrate_v1_v1() -> Vec<TaskDef> {
+    migrate(TaskKind::V1Export, TaskKind::V1Export)
+}
+fn v1_sw_u8() -> Vec<TaskDef> {
+    vec![mach::<u8>(TaskKind::V1Export, vec![EpSpec::StreamWriter(peer(3, 6, true))], 8, 0)]
+}
+fn v1_sr_item() -> Vec<TaskDef> {
+    vec![mach::<Item>(TaskKind::V1Export, vec![EpSpec::StreamReader(peer(3, 6, true))], 8, 1000)]
+}
+fn v1_fw_fr_item() -> Vec<TaskDef> {
+    vec![mach::<Item>(TaskKind::V1Export, vec![EpSpec::FutureWriter(peer(2, 1, true)), EpSpec::FutureReader(peer(2, 1, false))], 9, 1000)]
+}
+fn v1_and_v2_tasks() -> Vec<TaskDef> {
+    vec![
+        mach::<Item>(TaskKind::V1Export, vec![EpSpec::StreamWriter(peer(2, 4, true))], 6, 0),
+        mach::<Item>(TaskKind::Export, vec![EpSpec::FutureReader(peer(2, 1, false))], 5, 2000),
+    ]
+}
+
+fn migrate(kind_a: TaskKind, kind_b: TaskKind) -> Vec<TaskDef> {
     let w = Box::into_raw(Box::new(writer_to_host::<u8>(peer(3, 4, choose(2, "peer-may-drop") == 1))));
     let wref: &'static mut StreamWriter<u8> = unsafe { &mut *w };
     let handle = wref.handle();
@@ -379,7 +407,7 @@ fn migrate_u8() -> Vec<TaskDef> {
     let shared = Rc::new(RefCell::new(Migrating { op: Some(Box::pin(wref.write(v))), writer: w, slot, handle }));
     let (sa, sb) = (shared.clone(), shared);
     let a = TaskDef {
-        kind: TaskKind::Export,
+        kind: kind_a,
         body: Box::new(move || {
             Box::pin(async move {
                 // first poll registers the operation with task A
@@ -401,7 +429,7 @@ fn migrate_u8() -> Vec<TaskDef> {
         }),
     };
     let b = TaskDef {
-        kind: TaskKind::Export,
+        kind: kind_b,
         body: Box::new(move || {
             Box::pin(async move {
                 for _ in 0..choose(3, "b-yields-first") {
@@ -461,15 +489,19 @@ pub fn all() -> Vec<Scenario> {
         scn!(fpair_u8, F, cfg_stick(), false),
         scn!(two_tasks, SF, cfg_plain(), false),
         scn!(two_tasks_streams, S, cfg_cancel(), false),
-        scn!(block_on_sw_item, S, cfg_plain(), false),
-        scn!(block_on_sr_u8, S, cfg_plain(), false),
-        scn!(block_on_fw_fr_item, F, cfg_plain(), false),
         scn!(write_all_item, S, cfg_plain(), false),
         scn!(write_all_u8, S, cfg_cancel(), false),
         scn!(next_collect_item, S, cfg_plain(), false),
         scn!(next_collect_u8, S, cfg_cancel(), false),
         scn!(two_tasks_pair_u8, S, cfg_plain(), false),
         scn!(migrate_u8, S, cfg_stick(), false),
+        scn!(v1_sw_u8, S, cfg_cancel(), false),
+        scn!(v1_sr_item, S, cfg_plain(), false),
+        scn!(v1_fw_fr_item, F, cfg_cancel(), false),
+        scn!(v1_and_v2_tasks, SF, cfg_plain(), false),
+        scn!(migrate_v2_v1, S, cfg_stick(), false),
+        scn!(migrate_v1_v2, S, cfg_stick(), false),
+        scn!(migrate_v1_v1, S, cfg_stick(), false),
     ];
     #[cfg(feature = "futures-stream")]
     v.push(scn!(into_stream_item, S, cfg_cancel(), false));
@@ -478,6 +510,10 @@ pub fn all() -> Vec<Scenario> {
     v.push(Scenario { name: "sr_item_cancel", props: S, cfg: cfg_cancel(), build: sr_item, thorough_only: false });
     v.push(Scenario { name: "fw_item_cancel", props: F, cfg: cfg_cancel(), build: fw_item, thorough_only: false });
     v.push(Scenario { name: "fr_item_cancel", props: F, cfg: cfg_cancel(), build: fr_item, thorough_only: false });
+    // `block_on` scenarios last: a finding inside a synchronous wait ends the shard
+    v.push(scn!(block_on_sw_item, S, cfg_plain(), false));
+    v.push(scn!(block_on_sr_u8, S, cfg_plain(), false));
+    v.push(scn!(block_on_fw_fr_item, F, cfg_plain(), false));
     v.push(Scenario { name: "fpair_u8_cancel", props: F, cfg: ExecCfg { cancel_inject: true, may_stick: true, ..ExecCfg::default() }, build: fpair_u8, thorough_only: false });
     v
 }
